@@ -66,17 +66,9 @@ fn header_entries(s: &str, t: &mut Tally) {
     match guarded(|| Trailer::parse(s).map(|h| h.to_string())) { Err(l) => t.panic("Trailer::parse", &l, s), _ => {} }
 }
 
-fn block4_entries(s: &str, t: &mut Tally) {
-    for mt in MT_CODES {
-        t.evals += 1;
-        with_mt!(mt, T => { match guarded(|| <T as SwiftMessageBody>::parse_from_block4(s)) { Ok(Ok(b)) => { if let Err(l) = guarded(|| { let _ = b.to_mt_string(); let _ = b.validate_network_rules(false); let _ = serde_json::to_value(&b); }) { t.panic(&format!("MT{mt}::parse_from_block4:on-value"), &l, s); } } Ok(Err(e)) => render_err(&e, s, t, &format!("MT{mt}::parse_from_block4")), Err(l) => t.panic(&format!("MT{mt}::parse_from_block4"), &l, s) } }, else => {});
-    }
-    t.evals += 6;
-    if let Err(l) = guarded(|| swift_mt_message::parser::parse_block4_fields(s)) { t.panic("parse_block4_fields", &l, s); }
-    if let Err(l) = guarded(|| swift_mt_message::parser::normalize_field_tag(s).to_string()) { t.panic("normalize_field_tag", &l, s); }
-    if let Err(l) = guarded(|| swift_mt_message::extract_base_tag(s).to_string()) { t.panic("extract_base_tag", &l, s); }
-    if let Err(l) = guarded(|| swift_mt_message::parser::extract_field_content(s, "20")) { t.panic("extract_field_content", &l, s); }
-    if let Err(l) = guarded(|| swift_mt_message::parser::utils::extract_block4(s)) { t.panic("extract_block4", &l, s); }
+/// the public text helpers (fields::field_utils, fields::swift_utils, error-code tables, MessageParser misuse)
+fn helper_entries(s: &str, t: &mut Tally) {
+    t.evals += 1;
     // the public helper functions of fields::field_utils / fields::swift_utils that take text
     if let Err(l) = guarded(|| {
         use swift_mt_message::fields::{field_utils as fu, swift_utils as su};
@@ -104,6 +96,20 @@ fn block4_entries(s: &str, t: &mut Tally) {
         let mut q = swift_mt_message::parser::MessageParser::new(s, s);
         let _ = q.parse_field::<swift_mt_message::fields::Field20>("20"); let _ = q.parse_variant_field::<swift_mt_message::fields::Field59>("59");
     }) { t.panic("parser::misc", &l, s); }
+}
+
+fn block4_entries(s: &str, t: &mut Tally) {
+    for mt in MT_CODES {
+        t.evals += 1;
+        with_mt!(mt, T => { match guarded(|| <T as SwiftMessageBody>::parse_from_block4(s)) { Ok(Ok(b)) => { if let Err(l) = guarded(|| { let _ = b.to_mt_string(); let _ = b.validate_network_rules(false); let _ = serde_json::to_value(&b); }) { t.panic(&format!("MT{mt}::parse_from_block4:on-value"), &l, s); } } Ok(Err(e)) => render_err(&e, s, t, &format!("MT{mt}::parse_from_block4")), Err(l) => t.panic(&format!("MT{mt}::parse_from_block4"), &l, s) } }, else => {});
+    }
+    t.evals += 6;
+    if let Err(l) = guarded(|| swift_mt_message::parser::parse_block4_fields(s)) { t.panic("parse_block4_fields", &l, s); }
+    if let Err(l) = guarded(|| swift_mt_message::parser::normalize_field_tag(s).to_string()) { t.panic("normalize_field_tag", &l, s); }
+    if let Err(l) = guarded(|| swift_mt_message::extract_base_tag(s).to_string()) { t.panic("extract_base_tag", &l, s); }
+    if let Err(l) = guarded(|| swift_mt_message::parser::extract_field_content(s, "20")) { t.panic("extract_field_content", &l, s); }
+    if let Err(l) = guarded(|| swift_mt_message::parser::utils::extract_block4(s)) { t.panic("extract_block4", &l, s); }
+    helper_entries(s, t);
     if let Err(l) = guarded(|| { let _ = swift_mt_message::get_field_tag_for_mt(s, s); let _ = swift_mt_message::get_field_tag_with_variant(s, Some(s)); let _ = swift_mt_message::is_numbered_field(s); let _ = swift_mt_message::map_variant_to_numbered(s); }) { t.panic("utils", &l, s); }
 }
 
@@ -140,6 +146,15 @@ fn replace_leaves(v: &Value, path: &mut Vec<String>, out: &mut Vec<(String, Valu
             for (i, x) in a.iter().enumerate() { path.push(i.to_string()); replace_leaves(x, path, out, root); path.pop(); }
         }
         _ => {
+            // a string leaf keeps its byte length but loses its ASCII-ness (passes `len() == n` guards of hand-written deserialisers)
+            if let Value::String(orig) = v { if orig.len() >= 2 && orig.is_ascii() {
+                for (k, wide) in [(2usize, "\u{e9}"), (3, "\u{20ac}"), (4, "\u{1f600}")] { if orig.len() >= k { for at in [0usize, 1, orig.len() - k] { if at + k <= orig.len() {
+                    let alt = format!("{}{}{}", &orig[..at], wide, &orig[at + k..]);
+                    let mut r = root.clone(); let mut cur = &mut r;
+                    for p in path.iter() { cur = if cur.is_array() { cur.get_mut(p.parse::<usize>().unwrap()).unwrap() } else { cur.get_mut(p.as_str()).unwrap() }; }
+                    *cur = Value::String(alt); out.push((path.join("."), r));
+                } } } }
+            } }
             for alt in [Value::Null, json!(true), json!(-1), json!(1e308), json!(0.123456789), json!(1000.125), json!(1e-7), json!(123456789012345678u64), json!(-0.0), json!("x"), json!(""), json!([]), json!({}), json!("\u{e9}\u{0660}")] {
                 let mut r = root.clone();
                 let mut cur = &mut r;
@@ -249,6 +264,7 @@ fn child(ctx: &Ctx, k: usize, n: usize) -> i32 {
             for m in muts.iter().step_by(step) {
                 if !mine() { continue; }
                 t.evals += 1;
+                helper_entries(m, &mut t);
                 with_field!(kd.ty, T => {
                     match guarded(|| <T as SwiftField>::parse(m)) {
                         Ok(Ok(f)) => { t.oks += 1; if let Err(l) = guarded(|| { let _ = f.to_swift_string(); if let Ok(j) = serde_json::to_value(&f) { let _ = serde_json::from_value::<T>(j); } }) { t.panic(&format!("{}:on-value", kd.ty), &l, m); } }
